@@ -218,15 +218,106 @@ def field_rules(repo):
         else:
             out.append(unrecognised("FIELDS", fi, role, "guard `%s`" % tt, g))
     role = "p-value bin = int(score / bin_size) - smallest[k] + offset of motif k in the concatenated table"
-    si = [unparse(s) for s in walk_no_nested(fi.node) if isinstance(s, (ast.Assign, ast.AugAssign)) and unparse(getattr(s, "target", None) or s.targets[0]) == "score_idx"]
-    ok = si == ["score_idx = int(score / bin_size) - smallest[k]", "score_idx += score_to_pval_lengths[k]"]
-    out.append((holds if ok else unrecognised)("FIELDS", fi, role, "; ".join(si), a, nontrivial=False))
+    from ..rules import block_value_rule
+    out.append(block_value_rule(fi, g.body if isinstance(g, ast.If) else [], "score_idx", "int(score / bin_size) - smallest[k] + score_to_pval_lengths[k]",
+                                "FIELDS", role, a))
     role = "score accumulates pwm[character, motif offset + column]"
     sc = [unparse(s) for s in walk_no_nested(fi.node) if isinstance(s, ast.AugAssign) and unparse(s.target) == "score"]
     mi = [unparse(s.value) for s in walk_no_nested(fi.node) if isinstance(s, ast.Assign) and unparse(s.targets[0]) == "m_idx"]
     ok = sc == ["score += pwm[idx, m_idx]"] and mi == ["numpy.uint64(j + pwm_lengths[k])"]
     out.append((holds if ok else unrecognised)("FIELDS", fi, role, "; ".join(sc + mi), a, nontrivial=False))
     return out
+
+
+def threshold_value_rule(f, role):
+    """per motif i: thresholds[i] == (idx[0] + smallest[i]) * bin_size when some bin qualifies (len(idx) >= 1), +inf otherwise - whether the
+    +inf comes from an else-arm or from the array's initial fill"""
+    from ..terms import TermEval, compare, canon
+    from ..rules import inline_locals
+    from ..affine import Lin, ge, le, _infeasible
+    loops = [n for n in f.node.body if isinstance(n, ast.For) and any(isinstance(x, ast.Subscript) and isinstance(x.ctx, ast.Store) and
+             unparse(x.value) == "_score_thresholds" for x in ast.walk(n))]
+    if len(loops) != 1 or not isinstance(loops[0].target, ast.Name):
+        return unrecognised("THRESH", f, role, "threshold loop not found")
+    loop = loops[0]
+    iv = loop.target.id
+    lt = [unparse(s.value) for s in f.node.body if isinstance(s, ast.Assign) and unparse(s.targets[0]) == "log_threshold"]
+    if lt != ["math.log2(threshold)"]:
+        return unrecognised("THRESH", f, role, "log_threshold = %s" % lt, loop)
+    idxd = [s for s in walk_no_nested(loop) if isinstance(s, ast.Assign) and unparse(s.targets[0]) == "idx"]
+    if len(idxd) != 1:
+        return unrecognised("THRESH", f, role, "definition of the qualifying-bin vector `idx` not found", loop)
+    it = unparse(idxd[0].value)
+    if it not in ("numpy.where(_score_to_pvals[%s] < log_threshold)[0]" % iv, "numpy.nonzero(_score_to_pvals[%s] < log_threshold)[0]" % iv,
+                  "numpy.flatnonzero(_score_to_pvals[%s] < log_threshold)" % iv):
+        if "<= log_threshold" in it:
+            return violation("THRESH", f, role, "bins with p-value equal to the threshold qualify: `%s`" % it, idxd[0])
+        if "> log_threshold" in it or ">= log_threshold" in it:
+            return violation("THRESH", f, role, "qualifying bins are those ABOVE the p-value threshold: `%s`" % it, idxd[0])
+        return unrecognised("THRESH", f, role, "idx = %s" % it, idxd[0])
+    ai = AbsInt(f)
+    n_ = Lin.atom("len(idx)")
+    stores = [s for s in walk_no_nested(loop) if isinstance(s, ast.Assign) and isinstance(s.targets[0], ast.Subscript)
+              and unparse(s.targets[0]) == "_score_thresholds[%s]" % iv]
+    exp = TermEval().ev(ast.parse("(idx[0] + _smallest[%s]) * bin_size" % iv, mode="eval").body)
+    val_stores, inf_stores = [], []
+    for s_ in stores:
+        v = inline_locals(f, s_.value)
+        tv = unparse(v)
+        if tv in ("float('inf')", "numpy.inf", "math.inf", "float('Inf')", "numpy.float64('inf')"):
+            inf_stores.append(s_)
+            continue
+        if "idx[-1]" in tv:
+            return violation("THRESH", f, role, "threshold uses the last instead of the first qualifying bin: `%s`" % tv, s_)
+        got = TermEval().ev(v)
+        res = compare(got, exp, TermEval())
+        if res == "DIFFERENT":
+            return violation("THRESH", f, role, "threshold value is `%s`, expected (idx[0] + _smallest[%s]) * bin_size" % (tv, iv), s_,
+                             witness={"got": canon(got)[:160], "expected": canon(exp)[:160]})
+        if res != "EQUAL":
+            return unrecognised("THRESH", f, role, "threshold value `%s`" % tv, s_)
+        val_stores.append(s_)
+    if not val_stores:
+        return unrecognised("THRESH", f, role, "no store of the threshold value found", loop)
+
+    def lens(st):
+        for k_ in (st.G,):
+            pass
+        return st
+    # the value store happens only with len(idx) >= 1, and on every path with len(idx) >= 1
+    for s_ in val_stores:
+        sts = ai.states_at(s_)
+        if not sts:
+            return unrecognised("THRESH", f, role, "value store unreachable for the analysis", s_)
+        for st in sts:
+            L = ai.lin(st.copy(), ast.parse("len(idx)", mode="eval").body)
+            if L is None or not _infeasible(list(st.G) + [le(L, 0)]):
+                return violation("THRESH", f, role, "`%s` is reached with an empty `idx` (idx[0] does not exist / no bin qualifies)" % unparse(s_)[:60], s_)
+    # paths that skip the value store with len(idx) >= 1
+    exits = [n for n in walk_no_nested(loop) if isinstance(n, (ast.Continue, ast.Break))]
+    first = min(val_stores, key=lambda x: x.lineno)
+    for e in exits:
+        if e.lineno > first.lineno:
+            continue
+        for st in ai.states_at(e):
+            L = ai.lin(st.copy(), ast.parse("len(idx)", mode="eval").body)
+            if L is None or not _infeasible(list(st.G) + [ge(L, 1)]):
+                return violation("THRESH", f, role, "a `%s` skips the threshold store although a bin qualifies" % type(e).__name__.lower(), e)
+    # +inf when nothing qualifies: an explicit store under len(idx) <= 0, or the allocation's fill value
+    al = [s_ for s_ in f.node.body if isinstance(s_, ast.Assign) and unparse(s_.targets[0]) == "_score_thresholds"]
+    at = unparse(al[0].value) if al else ""
+    filled = any(at.startswith(p) for p in ("numpy.full(n_motifs, float('inf')", "numpy.full(n_motifs, numpy.inf", "numpy.full(n_motifs, math.inf")) or \
+        "numpy.inf * numpy.ones(" in at or "numpy.ones(n_motifs" in at and "* numpy.inf" in at
+    if inf_stores:
+        for s_ in inf_stores:
+            for st in ai.states_at(s_):
+                L = ai.lin(st.copy(), ast.parse("len(idx)", mode="eval").body)
+                if L is None or not _infeasible(list(st.G) + [ge(L, 1)]):
+                    return violation("THRESH", f, role, "the +inf store is reached although a bin qualifies", s_)
+        return holds("THRESH", f, role, "value under len(idx) >= 1, +inf otherwise (explicit store)", loop)
+    if filled:
+        return holds("THRESH", f, role, "value under len(idx) >= 1; array pre-filled with +inf (`%s`)" % at[:60], loop)
+    return violation("THRESH", f, role, "a motif without a qualifying bin keeps an uninitialised / non-infinite threshold (`%s`, no +inf store)" % at[:60], al[0] if al else loop)
 
 
 def sentinel_rules(repo):
@@ -439,16 +530,7 @@ def dtype_threshold_rules(repo):
         else:
             out.append(unrecognised("R-DTYPE", f, role, "dtype `%s`" % t, al[0]))
     role = "threshold = (first bin whose log p-value is below log2(threshold) + smallest) * bin_size, else +inf"
-    loop = [n for n in f.node.body if isinstance(n, ast.For) and any("_score_thresholds[i]" in unparse(x) for x in ast.walk(n))]
-    tb = [unparse(s) for s in ast.walk(loop[0]) if isinstance(s, ast.Assign)] if loop else []
-    ok = "idx = numpy.where(_score_to_pvals[i] < log_threshold)[0]" in tb and \
-        "_score_thresholds[i] = (idx[0] + _smallest[i]) * bin_size" in tb and "_score_thresholds[i] = float('inf')" in tb
-    lt = [unparse(s.value) for s in f.node.body if isinstance(s, ast.Assign) and unparse(s.targets[0]) == "log_threshold"]
-    ok = ok and lt == ["math.log2(threshold)"]
-    if not ok and any("idx[-1]" in t for t in tb):
-        out.append(violation("THRESH", f, role, "threshold uses the last instead of the first qualifying bin", loop[0]))
-    else:
-        out.append((holds if ok else unrecognised)("THRESH", f, role, "; ".join(tb)[:160], loop[0] if loop else f.node, nontrivial=False))
+    out.append(threshold_value_rule(f, role))
     return out
 
 
